@@ -2,7 +2,9 @@
 import math
 from fractions import Fraction
 
-from pbt.common import env, runner, snap, fresh as F, spec as S
+from hypothesis import strategies as st
+
+from pbt.common import env, runner, snap, fresh as F, spec as S, gen as G, machine as M
 
 env.import_efootprint()
 
@@ -12,7 +14,8 @@ LEVEL_TEXT = ("generated systems biased to hour-boundary step/request durations,
               "occurrences, data volumes, occurrence-hours, journeys in parallel, device energy and server needs are "
               "recomputed hour by hour by a reference model from the UTC journey starts and compared")
 LEVEL_NOTE = "takes utc_hourly_usage_journey_starts as given (the conversion itself is C11); trusts the harness' shift arithmetic"
-RULE = ("Hypothesis draws a system spec (step durations from {0,1 s,...,59/60/61 min,2 h,2.5 h}, request durations from "
+RULE = ("In 30% of the cases the system is first edited (1-3 edits) and the reference model uses the final inputs. "
+        "Hypothesis draws a system spec (step durations from {0,1 s,...,59/60/61 min,2 h,2.5 h}, request durations from "
         "{0.2 s ... 59 min,1 h,61 min,3 h}, jobs repeated within and across steps, series 1-48 h (10% up to 200) with "
         "zeros). Reference model: occurrences of a job in a pattern = sum over its appearances of the UTC starts shifted "
         "by floor(hours of preceding steps); data per hour = occurrences spread over ceil(request hours); average "
@@ -62,13 +65,31 @@ def job_request_hours(spec, objs, j):
     return Fraction(sec / 3600.0).limit_denominator(10 ** 12), False
 
 
+@st.composite
+def cases(draw):
+    spec = draw(G.specs())
+    hist = draw(G.histories(spec, min_steps=1, max_steps=3)) if draw(st.floats(0, 1)) < 0.3 else []
+    return {"spec": spec, "id_seed": draw(st.integers(0, 2 ** 20)), "history": hist}
+
+
 def check(case, ctx):
     spec = case["spec"]
-    objs, exc = F.build_case(case)
     labels = ["sharing=" + spec.get("sharing", "?")]
-    if objs is None:
-        ctx.case(case, False, labels + ["invalid_initial"])
-        return
+    if case.get("history"):
+        # conservation must also hold on a model reached through edits (same reference model, final inputs)
+        quiet = type("Q", (), {"violation": lambda self, *a, **k: False})()
+        summary = M.run_history(case, quiet, compare_fresh=False, check_totals=False, check_undo=False)
+        objs = summary.get("live")
+        if objs is None:
+            ctx.case(case, False, labels + ["history_" + summary["status"]])
+            return
+        spec = summary["final_spec"]
+        labels.append("after_history")
+    else:
+        objs, exc = F.build_case(case)
+        if objs is None:
+            ctx.case(case, False, labels + ["invalid_initial"])
+            return
     comp = F.spec_components(spec)
     c = snap.canon
     problems = []
@@ -199,4 +220,4 @@ def replay(case, ctx):
 
 
 def run_shard(ctx):
-    runner.run_given(ctx, F.spec_cases(), lambda c: check(c, ctx), ctx.budget["examples"])
+    runner.run_given(ctx, cases(), lambda c: check(c, ctx), ctx.budget["examples"])
